@@ -2,6 +2,7 @@ import Amqp.Model.Close
 import Amqp.Lemmas.Errors
 import Amqp.Lemmas.Alloc
 import Amqp.Gen.Skel
+import Amqp.Gen.ChanErr
 /-!
 # C11 — close handshakes are completed exactly once in both directions
 
@@ -285,6 +286,11 @@ theorem run_inv : ∀ (as : List Act) (c c' : Conn), Inv c → run c as = some c
     calling `close()` (once, twice, concurrently) and any interleaving with the reader. -/
 theorem conn_close_at_most_once (as : List Act) (c : Conn) (hr : run {} as = some c) : c.sent ≤ 1 :=
   (run_inv as {} c inv_init hr).once
+
+/-- `_close_channel`: CLOSING first (an application `close()` that comes now backs off, the number is not free
+    yet), then the CloseOk, then the local clean-up, the reason, and CLOSED last (regenerated) -/
+theorem close_channel_order : Gen.ChanErr.closeChannelOrder =
+    ["state:CLOSING", "closeok", "drop-tags", "clear-inbound", "reason", "state:CLOSED"] := by decide
 
 /-- … and exactly one when the first closer finds the connection open with its socket. -/
 theorem conn_close_first_sends : (run {} [.enter 1, .begin 1, .maybeSend 1]).map (·.sent) = some 1 := by decide
